@@ -16,7 +16,8 @@ RULE = ("pairs (start,end) from the boundary set {m*2^(17+3k)+d : |d|<=2} U {0,2
         "exhaustively x {gff,bed} x {one,set}, random pairs beyond; a pair is non-trivial when an end lies "
         "within +-2 of a bin boundary and its two ends fall in different finest bins (or it is out of range); "
         "distinct = distinct (start,end,fmt,one) / distinct interval pairs for the overlap clause")
-REQUIRED = ["stored bin after coordinate edit checked", "bins.bins contract evaluations", "overlap pairs checked", "Feature.bin checked", "stored bin column checked"]
+REQUIRED = ["repeated calls after the caller mutated the returned set", "bins of features constructed by gffutils checked",
+            "stored bin after coordinate edit checked", "bins.bins contract evaluations", "overlap pairs checked", "Feature.bin checked", "stored bin column checked"]
 ASSUMPTIONS = [
     "the specification in gvmon/models/binspec.py is a faithful reading of the statement",
     "'bed' is judged through bins(s,e,'bed') == bins(s+1,e,'gff') for non-empty half-open intervals only",
@@ -83,7 +84,18 @@ def call_direct(ctx, s, e, fmt, one):
     if why:
         contracts.drain()
         ctx.violation(case, {"why": why})
-    else:
+        return
+    drain(ctx, case)
+    if not one and isinstance(r, set) and ((s ^ e) & 3) == 0:
+        # the result belongs to the caller: emptying it must not change what the next identical call answers
+        r.clear()
+        r2 = B.bins(s, e, fmt=fmt, one=False)
+        ctx.mon("repeated calls after the caller mutated the returned set")
+        why = S.check_call(s, e, fmt, False, r2)
+        if why:
+            contracts.drain()
+            ctx.violation(case, {"why": "second identical call after the caller emptied the first result: " + why})
+            return
         drain(ctx, case)
 
 
@@ -125,6 +137,26 @@ def execute(ctx, case):
         drain(ctx, case)
     elif kind == "edited":
         edited_insert(ctx, case)
+    elif kind == "derived":
+        # Feature objects that gffutils itself constructs (gaps between features): their bin is bins(start, end) too
+        pairs = case["pairs"]
+        lines = []
+        for i, (a, b, c, d) in enumerate(pairs):
+            lines.append("chr%d\tsrc\texon\t%d\t%d\t.\t+\t.\tID=l%d" % (i, a, b, i))
+            lines.append("chr%d\tsrc\texon\t%d\t%d\t.\t+\t.\tID=r%d" % (i, c, d, i))
+        db = gffutils.create_db("\n".join(lines), ":memory:", from_string=True)
+        try:
+            gaps = list(db.interfeatures(db.all_features(order_by=("seqid", "start"))))
+            for g in gaps:
+                ctx.mon("bins of features constructed by gffutils checked")
+                why = S.check_one(g.start, g.end, g.bin)
+                if why or g.bin != B.bins(g.start, g.end, one=True):
+                    ctx.violation(case, {"why": "a Feature constructed by gffutils (gap %d-%d) carries bin %r, bins(start, end) is %r"
+                                         % (g.start, g.end, g.bin, B.bins(g.start, g.end, one=True))})
+                    break
+        finally:
+            db.conn.close()
+        drain(ctx, case)
     elif kind == "stored":
         # import lines with these coordinates; read the raw bin column back
         coords = case["coords"]
@@ -294,6 +326,20 @@ def run(ctx):
         case = {"kind": "edited", "how": rng.choice(["transform", "update-replace"]), "moves": moves}
         execute(ctx, case)
         ctx.case(("edited", case["how"], moves), True, sample=case if rng.random() < 0.1 else None, cls="insert after coordinate edit")
+    # 7. Feature objects built by gffutils itself next to bin boundaries
+    for _ in range(ctx.budget(40, 1600)):
+        pairs = []
+        for _ in range(10):
+            edge = rng.choice([v for v in vals if 2000 < v < S.LIMIT - 5000])
+            a = max(1, edge - rng.randrange(0, 900))
+            b = a + rng.randrange(0, 3) if rng.random() < 0.5 else edge + rng.randrange(-2, 3)
+            b = max(a, b)
+            c = b + rng.randrange(2, 2000)
+            d = c + rng.randrange(0, 50)
+            pairs.append((a, b, c, d))
+        case = {"kind": "derived", "pairs": pairs}
+        execute(ctx, case)
+        ctx.case(("derived", pairs), True, cls="features constructed by gffutils")
     ctx.mon("bins.bins contract evaluations", contracts.EVALS["bins.bins"])
 
 MANIFEST = {
